@@ -7,11 +7,69 @@ TRUSTED_BASE = [
     'machine arithmetic preconditions stated in each contract (clock < 2^62, counters < 2^63)',
 ]
 
+def K(h, ob, kind='complete', tier='quick', bound=None, note=''):
+    """one Kani harness = one obligation.  kind: complete (loop-free, full symbolic domain) | bounded | lemma | stub"""
+    return dict(h=h, ob=ob, kind=kind, tier=tier, bound=bound, note=note)
+
+
+STUB_HARNESSES = [
+    K('stub_u16_from_be_bytes', 'prelude.stub.u16_from_be_bytes', kind='stub'),
+    K('stub_u32_from_be_bytes', 'prelude.stub.u32_i32_from_be_bytes', kind='stub'),
+    K('stub_saturating_i32', 'prelude.stub.i32_saturating_and_min', kind='stub'),
+    K('stub_unsigned_abs', 'prelude.stub.i64_unsigned_abs', kind='stub'),
+]
+
 PROPS = {
+    'C02': dict(units=['core_all'], level='proof'),
+    'C06': dict(units=['core_all'], level='proof'),
+    'C08': dict(units=['core_all'], level='proof'),
+    'C12': dict(units=['core_all'], level='proof'),
+    'C13': dict(units=['core_all'], level='proof'),
+    'C07': dict(units=['reg'], level='proof',
+                kani=[K('reg_packets_layout', 'C07.kani.reg_packets_carry_type_and_id')]),
+    'C16': dict(units=[], level='proof', kani=[
+        K('cc_tick_range_and_wf', 'C16.kani.tick.target_in_range_and_floor_until_rtt_sample'),
+        K('cc_tick_lowered_only_by_backoff_or_drain_entry', 'C16.kani.tick.lowered_only_by_backoff_or_drain_entry'),
+        K('cc_loss_latch_hysteresis', 'C16.kani.loss_latch.enter_055_for_4s_clear_below_025'),
+        K('cc_tick_growth_bounded_at_floor_after_bootstrap', 'C16.kani.tick.growth_bounded_at_floor_after_bootstrap'),
+    ]),
+    'C17': dict(units=['cls'], level='proof'),
     'C15': dict(
+        kani=[K('reg_packets_layout', 'C15.kani.reg1_reg2_are_258_bytes_type_plus_id'),
+              K('keepalive_roundtrip', 'C15.kani.keepalive_decodes_back', note='8-iteration loop fully unwound (unwind 9, unwinding assertions on)'),
+              K('keepalive_ext_roundtrip', 'C15.kani.extended_keepalive_decodes_back', note='8-iteration loop fully unwound'),
+              K('ack_packet_roundtrip_le4', 'C15.kani.srtla_ack_decodes_back', kind='bounded', bound='1..=4 acknowledged numbers')] + STUB_HARNESSES,
         units=['proto'],
         level='proof',
         trusted=['u16/u32/i32::from_be_bytes specified as shift-or of the bytes (stub, Kani-validated)'],
         not_covered=[],
     ),
 }
+
+
+def run_extra(pid, tier, seed):
+    import kani
+    spec = PROPS[pid]
+    hs = [k for k in spec.get('kani', []) if tier == 'thorough' or k['tier'] == 'quick']
+    out = dict(obligations={}, assumptions=[], cmds=[], bounded={}, kani_time_s={}, audits=[])
+    if hs:
+        res = kani.run([k['h'] for k in hs])
+        out['cmds'].append(res['_cmd'])
+        for k in hs:
+            r = res[k['h']]
+            st = {'pass': 'discharged', 'fail': 'failed', 'undecided': 'undecided'}[r['status']]
+            info = dict(status=st, unit='kani', backend='kani/cbmc (%s)' % k['kind'], harness=k['h'], msg=r.get('reason', ''), output=r.get('output', '')[-3000:])
+            if st == 'failed':
+                try:
+                    info['cex'] = kani.concrete_playback(k['h'], timeout=300 if tier == 'quick' else 900)
+                except Exception:
+                    info['cex'] = None
+            out['obligations'][k['ob']] = info
+            out['kani_time_s'][k['h']] = r.get('time_s')
+            if k['kind'] == 'bounded':
+                out['bounded'][k['h']] = k['bound']
+        out['assumptions'].append('kani: tracing macros replaced by a no-op shim (kx/shims/tracing); logging arguments are not evaluated')
+        if any(k['h'].startswith('cc_') for k in hs):
+            out['assumptions'].append('kani: f64::exp modelled as: finite, >= 0, <= 1 for x <= 0 (cc_loss_latch_hysteresis)')
+            out['assumptions'].append('kani: inside tick() the call update_loss_ewma is replaced by a no-op; frame proved by cc_loss_latch_hysteresis')
+    return out
